@@ -142,6 +142,41 @@ def mask_wiring(prog, an, rep):
     gates = []
     for n in sd:
         gates += c.done_of(n)
+    explicit = 'mask_pwd' in f.params
+    if explicit:
+        # the other spelling: mask_pwd is a parameter of its own; where the
+        # caller gave none it is replaced by the repository's mask, and it
+        # is handed on by name
+        for n in c.nodes.values():
+            if n.kind == 'stmt' and isinstance(n.ast, ast.Assign) and \
+                    [src(t) for t in n.ast.targets] == ['mask_pwd']:
+                if src(n.ast.value) == 'self._mask_pwd':
+                    gates += c.done_of(n)
+        a_ = f.node.args
+        dflt = dict(zip([x.arg for x in a_.kwonlyargs], a_.kw_defaults))
+        pos_ = [x.arg for x in a_.args]
+        dflt.update(zip(pos_[len(pos_) - len(a_.defaults):], a_.defaults))
+        d_ = dflt.get('mask_pwd')
+        # ... and that replacement happens exactly when none was given
+        absent = an.branch_nodes(
+            f, lambda e: isinstance(e, ast.Compare) and len(e.ops) == 1 and
+            src(e.left) == 'mask_pwd' and isinstance(e.ops[0], ast.Is) and
+            d_ is not None and src(e.comparators[0]) == src(d_), False)
+        gates += absent
+        others = [n for n in c.nodes.values() if n.kind == 'stmt' and
+                  isinstance(n.ast, ast.Assign) and
+                  [src(t) for t in n.ast.targets] == ['mask_pwd'] and
+                  src(n.ast.value) != 'self._mask_pwd']
+        rep.check(not others, R, f.qname + ': the mask is the caller\'s or '
+                  'the repository\'s', f.where(), 'mask_pwd is re-bound to '
+                  '%s' % [src(n.ast.value) for n in others])
+
+    def forwarded(x):
+        if explicit:
+            v = kw(x, 'mask_pwd')
+            return v is not None and src(v) == 'mask_pwd'
+        return any(k.arg is None and src(k.value) == 'kwargs'
+                   for k in x.keywords)
     targets = an.target_nodes(f, Spec.func('bert_e.lib.simplecmd.cmd'),
                               depth=0)
     rep.floor('C16 simplecmd.cmd calls in Repository.cmd', len(targets), 1)
@@ -155,16 +190,14 @@ def mask_wiring(prog, an, rep):
         call = [x for x in ast.walk(t.ast) if isinstance(x, ast.Call) and
                 an.call_matches(f, x, Spec.func('bert_e.lib.simplecmd.cmd'))]
         for x in call:
-            rep.check(any(k.arg is None and src(k.value) == 'kwargs'
-                          for k in x.keywords), R, f.qname + ': the mask is '
-                      'forwarded (**kwargs)', f.where(x), 'kwargs (with '
-                      'mask_pwd) are not forwarded to simplecmd.cmd')
+            rep.check(forwarded(x), R, f.qname + ': the mask is '
+                      'forwarded', f.where(x), 'mask_pwd is not forwarded '
+                      'to simplecmd.cmd')
     # the retry recursion keeps the mask as well
     for x in prog.calls_in(f):
         if src(x.func) == 'self.cmd':
-            rep.check(any(k.arg is None and src(k.value) == 'kwargs'
-                          for k in x.keywords), R, f.qname + ': retry keeps '
-                      'the mask', f.where(x), 'the retry drops kwargs')
+            rep.check(forwarded(x), R, f.qname + ': retry keeps '
+                      'the mask', f.where(x), 'the retry drops the mask')
     init = need_func(an, 'bert_e.lib.git.Repository.__init__')
     ok = any(isinstance(n, ast.Assign) and
              src(n.targets[0]) == 'self._mask_pwd' and
